@@ -536,7 +536,7 @@ PROPS["C13"] = {
         "level_note": TRUST + " Preemption happens only at synchronisation calls (data races between two calls are C14's subject); beyond the preemption bound the search is random.",
         "technique": "systematic schedule exploration with a harness-owned deterministic scheduler (stateless model checking style DFS with a preemption bound) + rapidcheck-generated schedules; oracle: result log / byte identity / model + structural deadlock detection",
     },
-    "src": "props/C13.cpp", "extra_src": ["harness/shims/shims.c"], "shims": ["threadpool.sched", "sorter.mkshim"],
+    "src": "props/C13.cpp", "extra_src": ["harness/shims/shims.c"], "shims": ["threadpool.sched", "sorter.mkclose", "writer.vsclose", "reader.vsclose"],
     "level": "exploration",
     "rule": ("mode rc: case = (program, pool size, jobs/blocks/chunks, ordered?, callers, spurious budget, choice tape); non-trivial when "
              "the execution contained at least one preemption or allowed spurious wake-ups. mode dfs: one case = one member of the "
